@@ -14,6 +14,8 @@ import (
 //	                                                 base loader), up = the K-th enclosing lexical context
 //	DoLoader  lexical.DoWithLoader(<le>, func(){body}) le: child = NewParentedLoader(lexical.Loader()), parent = its
 //	                                                 parent, base = the base loader
+//	DoParent  pcore.DoWithParent(lexical, func(c){body}) = lexical.Fork() made current (internal/runtime.go:251-253);
+//	                                                 the model term is the one of DoCtx(fork)
 //	Fork      px.Fork(lexical, func(cf){body})       new goroutine
 //	Go        px.Go(func(cf){body})                  new goroutine, forks px.CurrentContext()
 //	TlGo      threadlocal.Go(func(){body})           new goroutine with a table and no context
@@ -79,6 +81,8 @@ func (p *Prog) gallina() string {
 			panic("bad context expression " + p.CE)
 		}
 		return fmt.Sprintf("PDoCtx %s %s %s", gLabel(p.L), ce, gBody(p.Body))
+	case "DoParent":
+		return fmt.Sprintf("PDoCtx %s CFork %s", gLabel(p.L), gBody(p.Body))
 	case "DoLoader":
 		return fmt.Sprintf("PDoLoader %s %s %s", gLabel(p.L), gLE(p.LE), gBody(p.Body))
 	case "Fork":
@@ -126,6 +130,8 @@ func (p *Prog) String() string {
 			ce = fmt.Sprintf("up%d", p.K)
 		}
 		return fmt.Sprintf("DoWithContext#%d(%s)%s", p.L, ce, b)
+	case "DoParent":
+		return fmt.Sprintf("DoWithParent#%d(lexical)%s", p.L, b)
 	case "DoLoader":
 		return fmt.Sprintf("DoWithLoader#%d(%s)%s", p.L, p.LE, b)
 	case "Fork", "Go":
@@ -154,7 +160,7 @@ func bodyText(ps []Prog) string {
 
 func isScope(op string) bool {
 	switch op {
-	case "Do", "DoCtx", "DoLoader", "Fork", "Go", "TlGo", "Try":
+	case "Do", "DoCtx", "DoParent", "DoLoader", "Fork", "Go", "TlGo", "Try":
 		return true
 	}
 	return false
@@ -173,6 +179,9 @@ type Case struct {
 	Policy    string `json:"policy,omitempty"`
 	SchedSeed uint64 `json:"sched_seed,omitempty"`
 	Sched     []int  `json:"sched,omitempty"`
+	// MinGid > 0: the case runs in a process that has already started at least that many goroutines (the ids that
+	// threadlocal.getg reads from the stack header then have at least as many digits as MinGid); family "highgid".
+	MinGid int64 `json:"min_gid,omitempty"`
 }
 
 func (c *Case) text() string {
@@ -217,7 +226,7 @@ func caseStats(c *Case) (nodes, depth, spawns, scopes, panics int) {
 			switch p.Op {
 			case "Fork", "Go", "TlGo":
 				spawns++
-			case "Do", "DoCtx", "DoLoader":
+			case "Do", "DoCtx", "DoParent", "DoLoader":
 				scopes++
 			case "Panic", "Pop":
 				panics++
